@@ -6,6 +6,9 @@
 PROP=$1; WT=$2; M=$3; shift 3; CHECKS=("$@"); [ ${#CHECKS[@]} = 0 ] && CHECKS=("$PROP")
 S=$WT/_seed/$M; OUT=/verif/seeded/$PROP/$M; mkdir -p $OUT
 cp $S/patch.diff $S/demo.rs $OUT/ 2>/dev/null; cp $S/README.md $OUT/ 2>/dev/null
+# PHASE=A: only the confirmation in the worktree (can run in parallel for different worktrees); PHASE=B: only the /repo part
+A=/tmp/seedA_${PROP}_$M.txt
+if [ "$PHASE" != "B" ]; then
 cd $WT && git checkout -q -- src && rm -f tests/seed_demo_*.rs
 export CARGO_NET_OFFLINE=true CARGO_TARGET_DIR=$WT/target
 mkdir -p tests; cp $S/demo.rs tests/seed_demo_$M.rs
@@ -24,6 +27,10 @@ PY
 rm -f /tmp/seed_base_$$.txt
 git checkout -q -- src; rm -f tests/seed_demo_$M.rs
 echo "[$PROP/$M] baseline with patch: $base ; demo without: $without ; demo with: $with"
+printf '%s\n%s\n%s\n' "$base" "$without" "$with" > $A
+fi
+[ "$PHASE" = "A" ] && exit 0
+base=$(sed -n 1p $A); without=$(sed -n 2p $A); with=$(sed -n 3p $A)
 # run the checks against /repo
 unset CARGO_TARGET_DIR
 cd /repo && git diff --quiet || { echo "repo dirty"; exit 2; }
